@@ -172,26 +172,32 @@ HARNESS h_vec_huge_kf_D18C() { vec_huge<Tri, true>(); }
 
 // =================================================================================================================
 // ArenaBitSet: pre-state = any size 0..128 over a two-word store (capacity 128) with arbitrary content that satisfies the
-// representation invariant (bits at and above `size` in the last used word are zero). Model: one bool per bit.
+// representation invariant (bits at and above `size` are zero in the used words). Model: the same bits kept as three words
+// and updated bit-range-wise by an independent reference (mask of [lo, hi) built bit by bit).
 static const unsigned BW = 64, BCAP = 128;
-struct BModel { bool b[BCAP + 64]; unsigned n; };
+struct BModel { BitWord w[3]; unsigned n; };
 static inline bool word_bit(const BitWord* d, unsigned i) { return (d[i / BW] >> (i % BW)) & 1; }
+// bits k of word `w` with lo <= k < hi
+static inline BitWord range_mask(unsigned w, unsigned lo, unsigned hi) {
+  BitWord m = 0;
+  for (unsigned b = 0; b < 64; b++) { unsigned k = w * 64 + b; if (k >= lo && k < hi) m |= BitWord(1) << b; }
+  return m;
+}
+static inline unsigned words_of(unsigned bits) { return (bits + 63) / 64; }
 
 static inline void bitset_build(ArenaBitSet& s, BitWord* store, BModel& m, unsigned max_size) {
   unsigned n = nondet_u8(); V_ASSUME(n <= max_size);
-  store[0] = nondet_u64(); store[1] = nondet_u64();
-  if (n < 64) { store[0] &= n ? (~BitWord(0) >> (64 - n)) : 0; }
-  else if (n < 128) { store[1] &= n > 64 ? (~BitWord(0) >> (128 - n)) : 0; }
+  for (unsigned w = 0; w < 2; w++) store[w] = nondet_u64() & range_mask(w, 0, n);
   s._data = store; s._size = n; s._capacity = BCAP;
-  m.n = n; for (unsigned i = 0; i < BCAP + 64; i++) m.b[i] = i < n && i < BCAP ? word_bit(store, i) : false;
+  m.n = n; m.w[0] = store[0]; m.w[1] = store[1]; m.w[2] = 0;
 }
-static inline void bitset_equals_model(ArenaBitSet& s, BModel& m, unsigned words) {
+static inline void bitset_equals_model(ArenaBitSet& s, BModel& m) {
   V_ASSERT(s.size() == m.n && s.is_empty() == (m.n == 0), "bitset: size equals the model size");
   V_ASSERT(s.size() <= s.capacity(), "bitset: size within capacity");
-  for (unsigned i = 0; i < words * BW; i++) if (i < m.n) V_ASSERT(s.bit_at(i) == m.b[i], "bitset: bit equals the model bit");
-  // representation invariant: no stray bits above size in the last used word
-  if (m.n % BW) V_ASSERT((s.data()[m.n / BW] >> (m.n % BW)) == 0, "bitset: bits above the size in the last word are zero");
-  for (unsigned w = 0; w < words; w++) if (w < (m.n + BW - 1) / BW) verif_observe(s.data()[w]);
+  for (unsigned w = 0; w < 3; w++) if (w < words_of(m.n)) {
+    V_ASSERT(s.data()[w] == m.w[w], "bitset: every bit below the size equals the model bit and no bit above the size is set");
+    verif_observe(s.data()[w]);
+  }
 }
 
 HARNESS h_bitset_bits() {
@@ -201,17 +207,19 @@ HARNESS h_bitset_bits() {
   unsigned i = nondet_u8(); bool val = nondet_bool();
   unsigned op = nondet_u8() % 8;
   verif_observe(op);
+  BitWord bit = i < 128 ? BitWord(1) << (i % 64) : 0; unsigned wi = (i / 64) & 1;
   switch (op) {
-    case 0: V_ASSUME(i < m.n); V_ASSERT(s.bit_at(i) == m.b[i], "bitset: bit_at reads the model bit"); V_WITNESS("bitset-bit-at"); break;
-    case 1: V_ASSUME(i < m.n); s.set_bit(i, val); m.b[i] = val; V_WITNESS("bitset-set-bit"); break;
-    case 2: V_ASSUME(i < m.n); s.add_bit(i, val); m.b[i] = m.b[i] || val; V_WITNESS("bitset-add-bit"); break;
-    case 3: V_ASSUME(i < m.n); s.clear_bit(i); m.b[i] = false; V_WITNESS("bitset-clear-bit"); break;
-    case 4: V_ASSUME(i < m.n); s.xor_bit(i, val); m.b[i] = m.b[i] != val; V_WITNESS("bitset-xor-bit"); break;
-    case 5: { V_ASSUME(m.n < 128); Error e = s.append(arena, val); V_ASSERT(e == Error::kOk && pool_calls == 0, "bitset: append within capacity needs no memory"); m.b[m.n++] = val; V_WITNESS("bitset-append"); break; }
-    case 6: s.truncate(i); if (i < m.n) { for (unsigned k = 0; k < BCAP; k++) if (k >= i) m.b[k] = false; m.n = i; } V_WITNESS("bitset-truncate"); break;
+    case 0: V_ASSUME(i < m.n); V_ASSERT(s.bit_at(i) == ((m.w[wi] & bit) != 0), "bitset: bit_at reads the model bit"); V_WITNESS("bitset-bit-at"); break;
+    case 1: V_ASSUME(i < m.n); s.set_bit(i, val); m.w[wi] = val ? m.w[wi] | bit : m.w[wi] & ~bit; V_WITNESS("bitset-set-bit"); break;
+    case 2: V_ASSUME(i < m.n); s.add_bit(i, val); if (val) m.w[wi] |= bit; V_WITNESS("bitset-add-bit"); break;
+    case 3: V_ASSUME(i < m.n); s.clear_bit(i); m.w[wi] &= ~bit; V_WITNESS("bitset-clear-bit"); break;
+    case 4: V_ASSUME(i < m.n); s.xor_bit(i, val); if (val) m.w[wi] ^= bit; V_WITNESS("bitset-xor-bit"); break;
+    case 5: { V_ASSUME(m.n < 128); Error e = s.append(arena, val); V_ASSERT(e == Error::kOk && pool_calls == 0, "bitset: append within capacity needs no memory");
+      if (val) m.w[m.n / 64] |= BitWord(1) << (m.n % 64); m.n++; V_WITNESS("bitset-append"); break; }
+    case 6: s.truncate(i); if (i < m.n) { for (unsigned w = 0; w < 3; w++) m.w[w] &= range_mask(w, 0, i); m.n = i; } V_WITNESS("bitset-truncate"); break;
     default: s.clear(); m.n = 0; V_WITNESS("bitset-clear"); break;
   }
-  bitset_equals_model(s, m, 2);
+  bitset_equals_model(s, m);
 }
 
 HARNESS h_bitset_ranges() {
@@ -221,22 +229,18 @@ HARNESS h_bitset_ranges() {
   unsigned op = nondet_u8() % 5;
   verif_observe(op);
   switch (op) {
-    case 0: s.clear_all(); for (unsigned k = 0; k < BCAP; k++) m.b[k] = false; V_WITNESS("bitset-clear-all"); break;
-    case 1: s.fill_all(); for (unsigned k = 0; k < BCAP; k++) m.b[k] = k < m.n; V_WITNESS("bitset-fill-all"); break;
-    case 2: V_ASSUME(start <= m.n && count <= m.n - start); s.clear_bits(start, count); for (unsigned k = 0; k < BCAP; k++) if (k >= start && k < start + count) m.b[k] = false; if (count > 64) V_WITNESS("bitset-clear-bits-across-words"); V_WITNESS("bitset-clear-bits"); break;
-    case 3: V_ASSUME(start <= m.n && count <= m.n - start); s.fill_bits(start, count); for (unsigned k = 0; k < BCAP; k++) if (k >= start && k < start + count) m.b[k] = true; if (count > 64) V_WITNESS("bitset-fill-bits-across-words"); V_WITNESS("bitset-fill-bits"); break;
-    default: {  // iteration over set bits = ascending list of the model's set bits
+    case 0: s.clear_all(); m.w[0] = m.w[1] = 0; V_WITNESS("bitset-clear-all"); break;
+    case 1: s.fill_all(); for (unsigned w = 0; w < 3; w++) m.w[w] = range_mask(w, 0, m.n); V_WITNESS("bitset-fill-all"); break;
+    case 2: V_ASSUME(start <= m.n && count <= m.n - start); s.clear_bits(start, count); for (unsigned w = 0; w < 3; w++) m.w[w] &= ~range_mask(w, start, start + count); if (count > 64) V_WITNESS("bitset-clear-bits-across-words"); V_WITNESS("bitset-clear-bits"); break;
+    case 3: V_ASSUME(start <= m.n && count <= m.n - start); s.fill_bits(start, count); for (unsigned w = 0; w < 3; w++) m.w[w] |= range_mask(w, start, start + count); if (count > 64) V_WITNESS("bitset-fill-bits-across-words"); V_WITNESS("bitset-fill-bits"); break;
+    default: {  // iteration over set bits: the iterator is BitVectorIterator over the used words (its steps: h_bitvec_iter_*)
       ArenaBitSet::ForEachBitSet it(s);
-      for (unsigned k = 0; k < BCAP; k++) if (m.b[k]) {
-        V_ASSERT(it.has_next(), "bitset: iterator has a next element while the model has a set bit left");
-        size_t got = it.next();
-        V_ASSERT(got == k, "bitset: iterator yields the set bits in ascending order");
-      }
-      V_ASSERT(!it.has_next(), "bitset: iterator ends after the last set bit");
-      V_WITNESS("bitset-iterate");
+      bool any = (m.w[0] | m.w[1]) != 0;
+      V_ASSERT(it.has_next() == any, "bitset: iteration has an element iff a bit is set");
+      if (any) { size_t got = it.next(); V_ASSERT(got == (m.w[0] ? Support::ctz(m.w[0]) : 64 + Support::ctz(m.w[1])), "bitset: iteration starts at the lowest set bit"); V_WITNESS("bitset-iterate"); }
       break; }
   }
-  bitset_equals_model(s, m, 2);
+  bitset_equals_model(s, m);
 }
 
 HARNESS h_bitset_combine() {
@@ -245,19 +249,17 @@ HARNESS h_bitset_combine() {
   bitset_build(s, store, m, 128); bitset_build(o, ostore, om, 128);
   unsigned op = nondet_u8() % 5;
   verif_observe(op);
-  unsigned common = m.n < om.n ? m.n : om.n;
   switch (op) {
-    case 0: s.and_(o); for (unsigned k = 0; k < BCAP; k++) m.b[k] = m.b[k] && om.b[k]; V_WITNESS("bitset-and"); break;
-    case 1: s.or_(o); for (unsigned k = 0; k < BCAP; k++) m.b[k] = m.b[k] || (k < m.n && om.b[k]); V_WITNESS("bitset-or"); break;
-    case 2: s.and_not(o); for (unsigned k = 0; k < BCAP; k++) m.b[k] = m.b[k] && !om.b[k]; V_WITNESS("bitset-and-not"); break;
-    case 3: { bool eq = m.n == om.n; for (unsigned k = 0; k < BCAP; k++) if (m.b[k] != om.b[k]) eq = false;
+    case 0: s.and_(o); for (unsigned w = 0; w < 3; w++) m.w[w] &= om.w[w]; V_WITNESS("bitset-and"); break;
+    case 1: s.or_(o); for (unsigned w = 0; w < 3; w++) m.w[w] |= om.w[w] & range_mask(w, 0, m.n); V_WITNESS("bitset-or"); break;
+    case 2: s.and_not(o); for (unsigned w = 0; w < 3; w++) m.w[w] &= ~om.w[w]; V_WITNESS("bitset-and-not"); break;
+    case 3: { bool eq = m.n == om.n && m.w[0] == om.w[0] && m.w[1] == om.w[1];
       V_ASSERT(s.equals(o) == eq && (s == o) == eq && (s != o) == !eq, "bitset: equality = same size and same bits");
       if (eq) V_WITNESS("bitset-equal"); else V_WITNESS("bitset-unequal"); break; }
     default: { Error e = s.copy_from(arena, o); V_ASSERT(e == Error::kOk && pool_calls == 0, "bitset: copy within capacity needs no memory");
-      for (unsigned k = 0; k < BCAP; k++) m.b[k] = om.b[k]; m.n = om.n; V_WITNESS("bitset-copy-from"); break; }
+      for (unsigned w = 0; w < 3; w++) m.w[w] = om.w[w]; m.n = om.n; V_WITNESS("bitset-copy-from"); break; }
   }
-  (void)common;
-  bitset_equals_model(s, m, 2);
+  bitset_equals_model(s, m);
 }
 
 // resize(new_size, value) and growing append. Known finding D18B: growing from a size that is not a multiple of 64 sets or
@@ -280,47 +282,52 @@ static void bitset_resize() {
 #endif
   Error e = by_append ? s.append(arena, val) : s.resize(arena, n, val);
   V_ASSERT(e == Error::kOk, "bitset: resize succeeds when the arena delivers");
-  bool grows = n > (cap_sel == 1 ? 64u : 128u);
+  const unsigned cap0 = cap_sel == 1 ? 64u : 128u;
+  bool grows = n > cap0;
   if (grows) {
     V_ASSERT(pool_calls == 1 && s.data() == reinterpret_cast<BitWord*>(pool_mem) && size_t(s.capacity()) <= pool_granted * 8 && s.capacity() >= n, "bitset: growth takes one block from the arena and reports a capacity within it");
-    V_ASSERT(was_released(arena, store, (cap_sel == 1 ? 64u : 128u) / 8), "bitset: growth releases the old words with their byte size");
+    V_ASSERT(was_released(arena, store, cap0 / 8), "bitset: growth releases the old words with their byte size");
   } else V_ASSERT(pool_calls == 0 && s.data() == store, "bitset: no growth keeps the storage");
-  if (n < old_n) { for (unsigned k = 0; k < BCAP + 64; k++) if (k >= n) m.b[k] = false; }
-  else for (unsigned k = 0; k < BCAP + 64; k++) if (k >= old_n && k < n) m.b[k] = val;
+  for (unsigned w = 0; w < 3; w++) {
+    if (n < old_n) m.w[w] &= range_mask(w, 0, n);
+    else if (val) m.w[w] |= range_mask(w, old_n, n);
+  }
   m.n = n;
   if constexpr (kf_region) {
-    bool same = true; for (unsigned i = 0; i < 192; i++) if (i < n && s.bit_at(i) != m.b[i]) same = false;
+    bool same = s.size() == n; for (unsigned w = 0; w < 3; w++) if (w < words_of(n) && s.data()[w] != m.w[w]) same = false;
     V_ASSERT(same, "bitset: resize keeps the old bits and sets the new ones to the value");
     V_WITNESS("bitset-resize-d18b-region");
     return;
   }
   if (by_append) V_WITNESS("bitset-append-any"); else if (n > old_n) V_WITNESS("bitset-resize-grow"); else V_WITNESS("bitset-resize-shrink");
   if (grows) V_WITNESS("bitset-resize-new-storage");
-  bitset_equals_model(s, m, 3);
+  bitset_equals_model(s, m);
 }
 HARNESS h_bitset_resize() { bitset_resize<false>(); }
 HARNESS h_bitset_resize_kf_D18B() { bitset_resize<true>(); }
 
 // =================================================================================================================
-// Support bit-vector helpers and iterators on raw word buffers (3 words), bit-by-bit reference.
+// Support bit-vector helpers on raw word buffers (3 words), bit-by-bit reference.
 HARNESS h_bitvec_ops() {
   BitWord buf[3], ref[3];
   for (int i = 0; i < 3; i++) ref[i] = buf[i] = nondet_u64();
   unsigned start = nondet_u8(), count = nondet_u8();
   V_ASSUME(start < 192 && count <= 192 - start);
-  unsigned op = nondet_u8() % 4;
+  unsigned op = nondet_u8() % 3;
   verif_observe(op);
   if (op < 2) {
     if (op == 0) Support::bit_vector_fill(buf, start, count); else Support::bit_vector_clear(buf, start, count);
-    for (unsigned k = 0; k < 192; k++) {
-      bool in = k >= start && k < start + count;
-      bool expect = in ? (op == 0) : word_bit(ref, k);
-      V_ASSERT(word_bit(buf, k) == expect, "bit vector: fill and clear change exactly the bits of the range");
+    // reference: per word, the mask of the bits k with start <= k < start + count
+    for (unsigned w = 0; w < 3; w++) {
+      BitWord mask = 0;
+      for (unsigned b = 0; b < 64; b++) { unsigned k = w * 64 + b; if (k >= start && k < start + count) mask |= BitWord(1) << b; }
+      V_ASSERT(buf[w] == (op == 0 ? (ref[w] | mask) : (ref[w] & ~mask)), "bit vector: fill and clear change exactly the bits of the range");
+      verif_observe(buf[w]);
     }
     if (count == 0) V_WITNESS("bitvec-empty-range");
     if (count > 128) V_WITNESS("bitvec-range-over-three-words");
     V_WITNESS("bitvec-fill-clear");
-  } else if (op == 2) {
+  } else {
     bool value = nondet_bool();
     // precondition of index_of: a matching bit exists at or after start (it does not take a length)
     unsigned first = 192; for (unsigned k = 192; k-- > 0;) if (k >= start && word_bit(buf, k) == value) first = k;
@@ -329,31 +336,100 @@ HARNESS h_bitvec_ops() {
     V_ASSERT(got == first, "bit vector: index_of returns the first matching bit at or after start");
     if (first >= 128 && start < 64) V_WITNESS("bitvec-index-of-skips-words");
     V_WITNESS("bitvec-index-of");
-  } else {
-    Support::BitVectorIterator<BitWord> it(Span<const BitWord>(buf, 3), start);
-    for (unsigned k = 0; k < 192; k++) if (k >= start && word_bit(buf, k)) {
-      V_ASSERT(it.has_next(), "bit vector iterator: has a next element while a set bit is left");
-      V_ASSERT(it.peek_next() == k, "bit vector iterator: peek shows the next set bit");
-      V_ASSERT(it.next() == k, "bit vector iterator: yields set bits from start in ascending order");
-    }
-    V_ASSERT(!it.has_next(), "bit vector iterator: ends after the last set bit");
-    V_WITNESS("bitvec-iterate");
   }
 }
 
+// Iterators as inductive steps. Abstract state = the set of bit positions still to be delivered (a 3-word mask).
+//   init(data, start)  establishes  remaining = set bits at or after start;
+//   next() from ANY state that represents a non-empty remaining set returns its minimum and removes exactly it.
+// By induction every run delivers the set bits from start in ascending order, each once, and has_next() turns false
+// exactly when none is left.
+struct Remaining { BitWord w[3]; };
+static inline Remaining decode(const Support::BitVectorIterator<BitWord>& it, const BitWord* buf) {
+  Remaining r; r.w[0] = r.w[1] = r.w[2] = 0;
+  size_t wi = it._idx / 64;
+  for (unsigned w = 0; w < 3; w++) { if (w == wi) r.w[w] = it._current; else if (w > wi) r.w[w] = buf[w]; }
+  return r;
+}
+static inline bool iter_valid(const Support::BitVectorIterator<BitWord>& it, const BitWord* buf) {
+  size_t wi = it._idx / 64;
+  // position: a word boundary; the cursor points behind the current word; an empty current word means nothing is left
+  bool pos = it._idx % 64 == 0 && it._end == 192 && (it._idx < 192 ? it._ptr == buf + wi + 1 : true);
+  bool sub = it._idx >= 192 ? it._current == 0 : (it._current & ~buf[wi]) == 0;
+  bool drained = it._current != 0 || it._idx >= 192 || ((wi >= 1 || buf[1] == 0) && (wi >= 2 || buf[2] == 0));
+  return pos && sub && drained;
+}
+HARNESS h_bitvec_iter_init() {
+  BitWord buf[3]; for (int i = 0; i < 3; i++) buf[i] = nondet_u64();
+  unsigned start = nondet_u8(); V_ASSUME(start <= 192);
+  Support::BitVectorIterator<BitWord> it(Span<const BitWord>(buf, 3), start);
+  Remaining r = decode(it, buf);
+  for (unsigned w = 0; w < 3; w++) {
+    BitWord mask = 0;
+    for (unsigned b = 0; b < 64; b++) if (w * 64 + b >= start) mask |= BitWord(1) << b;
+    V_ASSERT(r.w[w] == (buf[w] & mask), "bit vector iterator: after init the remaining set is the set bits at or after start");
+  }
+  V_ASSERT(it._idx >= 192 || iter_valid(it, buf), "bit vector iterator: init establishes the iterator invariant");
+  V_ASSERT(it.has_next() == ((r.w[0] | r.w[1] | r.w[2]) != 0), "bit vector iterator: has_next iff something remains");
+  if (start == 192) V_WITNESS("bitvec-iter-init-at-end");
+  if (start % 64) V_WITNESS("bitvec-iter-init-inside-word");
+  V_WITNESS("bitvec-iter-init");
+}
+HARNESS h_bitvec_iter_step() {
+  BitWord buf[3]; for (int i = 0; i < 3; i++) buf[i] = nondet_u64();
+  Support::BitVectorIterator<BitWord> it(Span<const BitWord>(buf, 3), 0);
+  unsigned wi = nondet_u8() % 3;
+  it._idx = 64 * wi; it._end = 192; it._ptr = buf + wi + 1; it._current = nondet_u64() & buf[wi];
+  V_ASSUME(it._current != 0 && iter_valid(it, buf));
+  Remaining pre = decode(it, buf);
+  V_ASSERT(it.has_next(), "bit vector iterator: has_next while something remains");
+  size_t peek = it.peek_next();
+  size_t n = it.next();
+  verif_observe(n);
+  // n is the minimum of the remaining set
+  V_ASSERT(n < 192 && ((pre.w[n / 64] >> (n % 64)) & 1), "bit vector iterator: next returns a remaining set bit");
+  for (unsigned w = 0; w < 3; w++) {
+    BitWord below = w < n / 64 ? ~BitWord(0) : w == n / 64 ? ((BitWord(1) << (n % 64)) - 1) : 0;
+    V_ASSERT((pre.w[w] & below) == 0, "bit vector iterator: nothing remaining lies below the returned bit");
+  }
+  V_ASSERT(peek == n, "bit vector iterator: peek_next announces what next returns");
+  Remaining post = decode(it, buf);
+  for (unsigned w = 0; w < 3; w++) V_ASSERT(post.w[w] == (w == n / 64 ? pre.w[w] & ~(BitWord(1) << (n % 64)) : pre.w[w]), "bit vector iterator: next removes exactly the returned bit");
+  V_ASSERT(it._idx >= 192 ? it._current == 0 : iter_valid(it, buf), "bit vector iterator: next preserves the iterator invariant");
+  V_ASSERT(it.has_next() == ((post.w[0] | post.w[1] | post.w[2]) != 0), "bit vector iterator: has_next iff something remains after the step");
+  if (it._idx / 64 > wi) V_WITNESS("bitvec-iter-advances-word");
+  if (!it.has_next()) V_WITNESS("bitvec-iter-exhausted");
+  V_WITNESS("bitvec-iter-step");
+}
+
 HARNESS h_bitword_iter() {
-  uint64_t w = nondet_u64(); uint32_t w32 = nondet_u32();
+  // one step from any non-zero word (64- and 32-bit): returns the lowest set bit and clears exactly it
+  uint64_t w = nondet_u64(); V_ASSUME(w != 0);
   Support::BitWordIterator<uint64_t> it(w);
-  for (unsigned k = 0; k < 64; k++) if ((w >> k) & 1) V_ASSERT(it.has_next() && it.next() == k, "bit word iterator: yields the set bits of a 64-bit word in ascending order");
-  V_ASSERT(!it.has_next(), "bit word iterator: ends after the last set bit");
+  V_ASSERT(it.has_next(), "bit word iterator: has_next on a non-zero word");
+  uint32_t k = it.next();
+  V_ASSERT(k < 64 && ((w >> k) & 1) && (w & ((uint64_t(1) << k) - 1)) == 0, "bit word iterator: next returns the lowest set bit");
+  V_ASSERT(it._bit_word == (w & ~(uint64_t(1) << k)) && it.has_next() == (it._bit_word != 0), "bit word iterator: next clears exactly that bit");
+  uint32_t w32 = nondet_u32(); V_ASSUME(w32 != 0);
   Support::BitWordIterator<uint32_t> it32(w32);
-  unsigned c = 0; uint32_t seen = 0;
-  for (unsigned step = 0; step < 33 && it32.has_next(); step++) { uint32_t i = it32.next(); V_ASSERT(i < 32 && ((w32 >> i) & 1) && !(seen >> i), "bit word iterator: 32-bit word yields each set bit once"); seen |= 1u << i; c++; }
-  V_ASSERT(seen == w32, "bit word iterator: every set bit of the 32-bit word is visited");
-  // two-operand iterator: bits of (a & ~b) over two words
+  uint32_t k32 = it32.next();
+  V_ASSERT(k32 < 32 && ((w32 >> k32) & 1) && (w32 & ((uint32_t(1) << k32) - 1)) == 0 && it32._bit_word == (w32 & ~(uint32_t(1) << k32)), "bit word iterator: 32-bit step returns and clears the lowest set bit");
+  Support::BitWordIterator<uint64_t> empty(0);
+  V_ASSERT(!empty.has_next(), "bit word iterator: nothing to deliver for zero");
+  // two-operand iterator (a and-not b over two words): init + one step
   BitWord a[2] = {nondet_u64(), nondet_u64()}, b[2] = {nondet_u64(), nondet_u64()};
-  Support::BitVectorOpIterator<BitWord, Support::AndNot> oit(a, b, 2);
-  for (unsigned j = 0; j < 128; j++) if (word_bit(a, j) && !word_bit(b, j)) V_ASSERT(oit.has_next() && oit.next() == j, "bit vector op iterator: yields the set bits of a and-not b in ascending order");
-  V_ASSERT(!oit.has_next(), "bit vector op iterator: ends after the last set bit");
+  unsigned start = nondet_u8() % 129;
+  Support::BitVectorOpIterator<BitWord, Support::AndNot> oit(a, b, 2, start);
+  BitWord c[2] = {a[0] & ~b[0], a[1] & ~b[1]};
+  BitWord m0 = 0, m1 = 0; for (unsigned bit = 0; bit < 64; bit++) { if (bit >= start) m0 |= BitWord(1) << bit; if (64 + bit >= start) m1 |= BitWord(1) << bit; }
+  bool any = ((c[0] & m0) | (c[1] & m1)) != 0;
+  V_ASSERT(oit.has_next() == any, "bit vector op iterator: has_next iff a and-not b has a bit at or after start");
+  if (any) {
+    size_t n = oit.next();
+    BitWord lo = c[0] & m0;
+    size_t expect = lo ? Support::ctz(lo) : 64 + Support::ctz(c[1] & m1);
+    V_ASSERT(n == expect, "bit vector op iterator: first result is the lowest bit of a and-not b at or after start");
+    V_WITNESS("bitword-op-iter");
+  }
   V_WITNESS("bitword-iterate");
 }
